@@ -57,6 +57,53 @@ def _unquote_tla_string(s: str):
     return json.loads(s)
 
 
+_TAGSTART = re.compile(r'^<<\s*"([A-Z_0-9]+)",\s*')
+
+
+def _tagged_values(text: str):
+    """Yield (tag, rest) for every top-level tuple <<"TAG", rest>> printed by TLC, also when it was
+    pretty-printed over several lines. Bracket matching respects string literals."""
+    lines = text.splitlines()
+    i = 0
+    while i < len(lines):
+        if not lines[i].startswith("<<"):
+            i += 1
+            continue
+        buf = lines[i]
+        j = i
+        while True:
+            depth, k, instr = 0, 0, False
+            closed = False
+            while k < len(buf):
+                c = buf[k]
+                if instr:
+                    if c == "\\":
+                        k += 1
+                    elif c == '"':
+                        instr = False
+                elif c == '"':
+                    instr = True
+                elif buf.startswith("<<", k):
+                    depth += 1
+                    k += 1
+                elif buf.startswith(">>", k):
+                    depth -= 1
+                    k += 1
+                    if depth == 0:
+                        closed = True
+                        break
+                k += 1
+            if closed or j + 1 >= len(lines) or j - i > 2000:
+                break
+            j += 1
+            buf += " " + lines[j].strip()
+        i = j + 1
+        m = _TAGSTART.match(buf)
+        if m and buf.rstrip().endswith(">>"):
+            rest = buf[m.end():].rstrip()[:-2].strip()
+            yield m.group(1), rest
+
+
 def scratch_dir(prefix: str = "vfw") -> Path:
     base = os.environ.get("VERIF_SCRATCH") or tempfile.gettempdir()
     return Path(tempfile.mkdtemp(prefix=prefix + "-", dir=base))
@@ -98,20 +145,14 @@ def run_tlc(module: str, cfg: str, *, workers: int | str = "auto", timeout: int 
         shutil.rmtree(meta, ignore_errors=True)
     out = p.stdout + "\n" + p.stderr
     res = TLCResult(ok=False, wall_s=time.time() - t0, stdout=out, cmd=" ".join(cmd))
-    # tagged payload lines
+    # tagged payload values: PrintT(<<"TAG", x>>) -- TLC may pretty-print them over several lines
+    for tag, rest in _tagged_values(p.stdout):
+        try:
+            payload = json.loads(_unquote_tla_string(rest)) if rest.startswith('"') else rest
+        except Exception:
+            payload = rest
+        res.tagged.setdefault(tag, []).append(payload)
     for line in p.stdout.splitlines():
-        m = _TAGGED.match(line)
-        if m:
-            tag, rest = m.group(1), m.group(2)
-            try:
-                if rest.startswith('"'):
-                    payload = json.loads(_unquote_tla_string(rest))
-                else:
-                    payload = rest
-            except Exception:
-                payload = rest
-            res.tagged.setdefault(tag, []).append(payload)
-            continue
         m = _COV.match(line)
         if m:
             name = m.group(1)
